@@ -4,6 +4,8 @@ SPEC on the implementation (recording adapter implementing Adapter + BatchAdapte
     in-memory policy per policy type; a call that reports failure / no change (or raises) issued no adapter call;
   * auto-save off: no adapter call until save_policy, which then stores exactly the in-memory policy;
   * load_policy directly after such a history changes no decision and no rule."""
+import itertools
+
 from ..core import Check
 from .. import mgmt
 from ..specs import truthy, fmatch
@@ -312,6 +314,153 @@ def run(chk, n):
         chk.extra["strata"][f"random_async_{kn}"] = len(cases)
 
 
+# ----------------------------------------------------------------------------- values with leading / trailing blanks
+# A field value that differs from another one only by surrounding blanks is a DIFFERENT value (C06): "alice " and "alice"
+# may both be stored.  The mirror SPEC does not care what the values look like: after every successful call the adapter
+# holds, value for value, what memory holds, and a reload changes nothing.  The adapter of this stratum keeps and hands
+# back the stored columns verbatim (as a database adapter does); mgmt.RecAdapter renders each row as a CSV line on load,
+# which trims blanks by design (C10) and would itself change a padded rule.
+PAD_BASE = ["alice", "bob", "admin", "editor", "data1", "data2", "grp", "read", "write", "d1", "d2", "eve"]
+PAD_FORMS = [lambda x: x + " ", lambda x: " " + x, lambda x: " " + x + " ", lambda x: x + "\t"]
+PADDED = {}                                  # atom of a name -> atoms of its padded spellings (interned at import: replays decode alike)
+for _n in PAD_BASE:
+    PADDED[mgmt.ATOMS.a(_n)] = [mgmt.ATOMS.a(f(_n)) for f in PAD_FORMS]
+
+
+class VerbatimAdapter(mgmt.RecAdapter):
+    """RecAdapter whose load_policy hands the stored rows to the model value for value"""
+
+    def load_policy(self, model):
+        n = 0
+        for pt, r in self.rows:
+            if self.fail_at is not None and n >= self.fail_at:
+                raise mgmt.AdapterFail("injected failure after %d rows" % n)
+            sec = pt[0]
+            if sec in model.model and pt in model.model[sec]:
+                model.model[sec][pt].policy.append(list(r))
+            n += 1
+        if self.fail_at is not None:
+            raise mgmt.AdapterFail("injected failure after %d rows" % n)
+
+
+class verbatim_store:
+    """within this block mgmt.Impl attaches a VerbatimAdapter instead of a RecAdapter"""
+
+    def __enter__(self):
+        self.saved = mgmt.RecAdapter
+        mgmt.RecAdapter = VerbatimAdapter
+
+    def __exit__(self, *a):
+        mgmt.RecAdapter = self.saved
+        return False
+
+
+def reload_check_padded(kind, rows, lf, ops, obs, impl):
+    return reload_check(kind, rows, lf, ops, obs, impl)
+
+
+reload_check_padded.case_extra = dict(store="verbatim")
+
+
+def pad_value(rng, x, forms, share):
+    """an interned NAME (atoms >= 1003; opcodes, policy types, positions, priorities, allow/deny are smaller) is replaced by
+    the padded spelling chosen for it in this history w.p. `share`, so that a name occurs both plain and padded"""
+    if isinstance(x, bool) or not isinstance(x, int):
+        if isinstance(x, (list, tuple)):
+            return [pad_value(rng, y, forms, share) for y in x]
+        return x
+    if x in forms and rng.random() < share:
+        return forms[x]
+    return x
+
+
+def pad_op(rng, op, forms, share):
+    return tuple([op[0]] + [pad_value(rng, a, forms, share) for a in op[1:]])
+
+
+def padded_exhaustive(maxlen):
+    """every sequence of <= maxlen calls over single / batch / filtered / update / RBAC-API calls whose rules differ only by
+    surrounding blanks, then probe + load_policy + probe"""
+    A = mgmt.ATOMS.a
+    rs = [[A("eve"), A("data1"), A("read")], [A("eve "), A("data1"), A("read")], [A(" eve"), A("data1"), A("read")],
+          [A("eve"), A("data1 "), A("read")]]
+    alpha = [(1, 0, r) for r in rs] + [(3, 0, r) for r in rs[:3]] + \
+            [(2, 0, [rs[1], rs[3]]), (4, 0, [rs[0], rs[2]]), (6, rs[0], rs[1]), (6, rs[2], rs[3]), (7, [rs[1], rs[0]], [rs[2], rs[3]]),
+             (13, A("eve "), [A("data1"), A("read")]), (14, A(" eve"), [A("data1"), A("read")]), (15, A("eve ")),
+             (5, 0, 0, [A("eve ")]), (5, 0, 1, [A("data1 ")]), (12, [A("data1 "), A("read")])]
+    probe = [(50, [s_, o_, A("read")]) for s_ in (A("eve"), A("eve "), A(" eve")) for o_ in (A("data1"), A("data1 "))]
+    for n in range(1, maxlen + 1):
+        for seq in itertools.product(alpha, repeat=n):
+            yield ([(0, rs[0])], True, list(seq) + probe + [(31,)] + probe)
+
+
+def padded_random(rng, kn, n):
+    """random histories (mgmt.Gen) in which names are replaced, occurrence by occurrence, by padded spellings - in the
+    initial rows, in every management call (single / batch / filtered / update / update_filtered / RBAC API) and in the
+    requests; 20% run with auto-save off and end in save_policy; all end in probe + load_policy + probe"""
+    cases = []
+    for _ in range(n):
+        kind = mgmt.KINDS[kn].with_(adapter=True, watcher=rng.choice([0, 1, 2]))
+        g = mgmt.Gen(rng, kind, dict(W, p_update_filtered=0.6 if rng.random() < 0.3 else 0))
+        forms = {a: rng.choice(v) for a, v in PADDED.items() if rng.random() < 0.6}
+        share = rng.choice([0.3, 0.5, 0.7])
+        rows, seen = [], set()
+        for pt, r in g.rows(rng.randint(0, 6)):
+            r = pad_value(rng, r, forms, share)
+            if (pt, tuple(r)) not in seen:
+                seen.add((pt, tuple(r)))
+                rows.append((pt, r))
+        ops = []
+        off = rng.random() < 0.2
+        if off:
+            ops.append((35, False))
+        ops += [pad_op(rng, o, forms, share) for o in g.history(rng.randint(3, 14), final_probe=False)]
+        uni = mgmt.Universe(kind)
+        probe = mgmt.probe_ops(kind, uni)
+        probe = probe + [pad_op(rng, o, forms, 0.6) for o in probe[:24]]
+        if off:
+            ops += [(33,)]
+        ops += probe + [(31,)] + probe
+        cases.append((kind, rows, True, ops))
+    return cases
+
+
+def run_padded(chk, n, exh_len):
+    rng = chk.rng
+    st = chk.extra.setdefault("strata", {})
+    with verbatim_store():
+        ex = list(padded_exhaustive(exh_len))
+        mgmt.run_cases(chk, mgmt.KINDS["acl"], ex, reload_check_padded, label=f"padded-values-len<={exh_len}",
+                       key_fn=lambda k, r, o: ("padded", k.name, repr([x for x in o if x[0] < 50])))
+        st[f"padded_values_exhaustive_len<={exh_len}"] = len(ex)
+        for kn in ("acl", "rbac", "dom", "rbac_res", "prio"):
+            cases = padded_random(rng, kn, n)
+            by_kind = {}
+            for kind, rows, lf, ops in cases:
+                by_kind.setdefault(kind.watcher, (kind, []))[1].append((rows, lf, ops))
+            for w, (kind, cs) in by_kind.items():
+                mgmt.run_cases(chk, kind, cs, reload_check_padded, label=f"padded-values-random-{kn}",
+                               key_fn=lambda k, r, o: ("padded", k.name, repr(r), repr([x for x in o if x[0] < 50])))
+            st[f"padded_values_random_{kn}"] = st.get(f"padded_values_random_{kn}", 0) + len(cases)
+        from ..async_facade import AsyncFacade
+        cases = padded_random(rng, "rbac", max(10, n // 3))
+        by_kind = {}
+        for kind, rows, lf, ops in cases:
+            by_kind.setdefault(kind.watcher, (kind, []))[1].append((rows, lf, ops))
+        for w, (kind, cs) in by_kind.items():
+            mgmt.run_cases(chk, kind, cs, reload_check_padded_async, label="padded-values-random-async-rbac",
+                           impl_kwargs=dict(enforcer_cls=AsyncFacade),
+                           key_fn=lambda k, r, o: ("padded-async", k.name, repr(r), repr([x for x in o if x[0] < 50])))
+        st["padded_values_random_async_rbac"] = st.get("padded_values_random_async_rbac", 0) + len(cases)
+
+
+def reload_check_padded_async(kind, rows, lf, ops, obs, impl):
+    return reload_check(kind, rows, lf, ops, obs, impl)
+
+
+reload_check_padded_async.case_extra = dict(store="verbatim", enforcer="AsyncEnforcer")
+
+
 # ----------------------------------------------------------------------------- FastEnforcer (added after the third seeding wave)
 _FAST = {}
 
@@ -378,7 +527,11 @@ def main():
                 "interfaces; 25% of the histories run with auto-save off and end in save_policy; every history ends in "
                 "probe + load_policy + probe; the same on the AsyncEnforcer (every call awaited) for ACL / RBAC / domain models "
                 "and on a FastEnforcer with every admissible 2-field cache-key order (6 on ACL, 2 on RBAC models); "
-                "non-trivial = at least one mutating call; distinct by (kind, mutating calls)")
+                "non-trivial = at least one mutating call; distinct by (kind, mutating calls); values with leading / "
+                "trailing blanks (a name occurs both plain and padded: 'alice', 'alice ', ' alice') in the initial rows, in every "
+                "management entry point and in the requests - exhaustive sequences of <=2 calls from a 19-call alphabet and "
+                "random histories on ACL / RBAC / domain / resource-role / priority models and the AsyncEnforcer - against an "
+                "adapter that keeps and loads the stored columns verbatim")
     chk.assumptions = ["the adapter is faithful: it applies each call to its rows as Mgmt.apply_acall does and returns None",
                        "clear_policy is memory-only by design; histories here contain none"]
     chk.trusted = ["hand-written models coq/theories/{Policy,RoleGraph,Mgmt}.v tied by the differential history correspondence",
@@ -389,6 +542,12 @@ def main():
     if chk.replay_file:
         import json
         c = (json.load(open(chk.replay_file)).get("case") or {})
+        if c.get("store") == "verbatim":
+            with verbatim_store():
+                if c.get("enforcer") == "AsyncEnforcer":
+                    from ..async_facade import AsyncFacade
+                    return mgmt.replay_case(chk, reload_check_padded_async, impl_kwargs=dict(enforcer_cls=AsyncFacade))
+                return mgmt.replay_case(chk, reload_check_padded)
         if c.get("enforcer") == "FastEnforcer":
             chk.oracle = None      # implementation-level stratum (the index order of FastPolicy is not the model's)
             return mgmt.replay_case(chk, fast_spec(c["cache_key_order"]), impl_kwargs=fast_kwargs(c["cache_key_order"]))
@@ -399,13 +558,17 @@ def main():
     if chk.tier == "thorough":
         run(chk, 1500)
         run_fast(chk, 250)
+        run_padded(chk, 600, 3)
     else:
         run(chk, 150)
         run_fast(chk, 25)
+        run_padded(chk, 60, 2)
         if (chk.broken() or chk.anchor_changed) and not chk.spec_failures:
             run(chk, 800)
             if not chk.spec_failures:
                 run_fast(chk, 120)
+            if not chk.spec_failures:
+                run_padded(chk, 300, 2)
     chk.finish()
 
 
